@@ -553,6 +553,7 @@ pub fn profile_values() -> Profile {
     let mut p = Profile::base("values");
     p.flatten_tower = 12;
     p.cycles = 12;
+    p.escape_strings = true;
     p
 }
 
